@@ -572,7 +572,17 @@ Definition cancel_transaction (cfg : config) (st : cstate) (tok : list N) (w : w
       end
   end.
 
-Record summary := { m_tid : option N; m_amount : option N; m_trace : option N; m_date : option N; m_time : option N }.
+(* format!("{:0w$}", n): the decimal digits of n, at least w of them (zero-padded in front) *)
+Fixpoint dec_digits (fuel : nat) (n : N) : list N :=
+  match fuel with
+  | O => []
+  | S f => if n <? 10 then [48 + n] else dec_digits f (n / 10) ++ [48 + n mod 10]
+  end.
+Definition pad_dec (w : nat) (n : N) : list N :=
+  let d := dec_digits 40 n in repeat 48 (w - length d) ++ d.
+
+(* TransactionSummary: terminal id ({:08} since the fix of F10; was to_string()), date ({:04}) and time ({:06}) are text *)
+Record summary := { m_tid : option (list N); m_amount : option N; m_trace : option N; m_date : option (list N); m_time : option (list N) }.
 
 Definition h_commit (ixa ixs : N) (acc : option value) (i : N) (v : value) : option (cres (option value)) * option value :=
   if i =? ixa then (Some (RErr (EAborted (abort_code v))), acc)
@@ -607,7 +617,8 @@ Definition commit_transaction (cfg : config) (st : cstate) (tok : list N) (amoun
               | None => (RErr EIncomplete, st2, w2)
               | Some v =>
                   let g tg := match field_of "zvt::packets::StatusInformation" v tg with Some (VSome (VInt n)) => Some n | _ => None end in
-                  (ROk {| m_tid := g 41; m_amount := g 4; m_trace := g 11; m_date := g 13; m_time := g 12 |}, st2, w2)
+                  (ROk {| m_tid := option_map (pad_dec 8) (g 41); m_amount := g 4; m_trace := g 11;
+                          m_date := option_map (pad_dec 4) (g 13); m_time := option_map (pad_dec 6) (g 12) |}, st2, w2)
               end
           end
       end
